@@ -2,7 +2,11 @@
 // Karpenter code with an independent oracle on every case and records what it covered.
 package checks
 
-import "verif/internal/ev"
+import (
+	"sigs.k8s.io/controller-runtime/pkg/client"
+
+	"verif/internal/ev"
+)
 
 type Check struct {
 	ID    string
@@ -23,3 +27,5 @@ func must(err error) {
 		panic(err)
 	}
 }
+
+func clientKey(ns, name string) client.ObjectKey { return client.ObjectKey{Namespace: ns, Name: name} }
